@@ -37,13 +37,14 @@ fn check_inner(cw: u8, cn: u8, tw: u8, tn: u8, dict: u8, corpus: usize, solver: 
     } else { vec![] };
     // tag dictionary: default tags for tokens that may be absent from the corpus
     let tag_dict: Vec<Sentence> = if dict == 3 { vec![Sentence::from_tokenized("猫/名詞/ネコ 犬/名詞/イヌ 行っ/動詞/イッ").unwrap()] } else { vec![] };
-    let mut t = match Trainer::new(cw, cn, tw, tn, words, dict, &tag_dict) {
+    let mut t = match Trainer::new(cw, cn, tw, tn, words.clone(), dict, &tag_dict) {
         Ok(t) => t,
         Err(_) => return None,
     };
     for s in &sents {
         t.add_example(s);
     }
+    let word_refs: Vec<String> = words.clone();
     let model = match t.train(0.01, 1.0, SOLVERS[solver]) {
         Ok(m) => m,
         Err(e) => {
@@ -104,6 +105,27 @@ fn check_inner(cw: u8, cn: u8, tw: u8, tn: u8, dict: u8, corpus: usize, solver: 
                     return Some(format!("dictionary word {:?} (bucket {}) carries (left, inside, right) = {:?}, another word of the bucket {:?}", d.word, b, cur, prev));
                 }
                 if prev.1.is_none() { buckets.insert(b, (prev.0, cur.1, prev.2)); }
+            }
+        }
+    }
+    // the statement itself (through the verification hook): every boundary of every text is scored as the learned
+    // quantised bias plus the learned quantised weight of each feature the trainer extracts for that boundary
+    #[cfg(vaporetto_verif)]
+    {
+        let learned: std::collections::HashMap<String, i32> = vaporetto::VERIF_LEARNED.lock().unwrap().iter().cloned().collect();
+        let bias = *learned.get("bias").unwrap_or(&0) as i64;
+        let (m, _) = Model::read_slice(&bytes).ok()?;
+        let p = Predictor::new(m, false).ok()?;
+        let wr: Vec<&str> = word_refs.iter().map(|w| w.as_str()).collect();
+        for text in TEXTS.iter().chain(CORPORA[corpus].iter().take(3)) {
+            let raw: String = match Sentence::from_tokenized(text) { Ok(s) => s.as_raw_text().to_string(), Err(_) => continue };
+            let mut s = Sentence::from_raw(raw.clone()).unwrap();
+            p.predict(&mut s);
+            let feats = crate::trainref::features(&s, (cw, cn, tw, tn), &wr, dict);
+            let want: Vec<i64> = feats.iter().map(|fs| bias + fs.iter().map(|f| *learned.get(f).unwrap_or(&0) as i64).sum::<i64>()).collect();
+            let got: Vec<i64> = s.boundary_scores().iter().map(|x| *x as i64).collect();
+            if want != got {
+                return Some(format!("scores of {:?}: the learned quantised weights of the extracted features give {:?}, the trained model gives {:?}", raw, want, got));
             }
         }
     }
